@@ -25,6 +25,7 @@ import (
 	"github.com/gorilla/websocket"
 	"github.com/practable/relay/internal/vw"
 	"github.com/practable/relay/verifharness/lib"
+	log "github.com/sirupsen/logrus"
 )
 
 // ---------------------------------------------------------------- the flapping destination
@@ -105,7 +106,11 @@ var (
 func startHost() {
 	port := lib.FreePorts(1)[0]
 	os.Setenv("VW_PORT", strconv.Itoa(port))
-	os.Setenv("VW_LOGLEVEL", "PANIC")
+	lvl := os.Getenv("VERIF_LOGLEVEL")
+	if lvl == "" {
+		lvl = "PANIC"
+	}
+	os.Setenv("VW_LOGLEVEL", lvl)
 	// every other option keeps its default, in particular VW_CLIENTTIMEOUTMS
 	go vw.Stream()
 	addr := "127.0.0.1:" + strconv.Itoa(port)
@@ -124,6 +129,9 @@ func startHost() {
 		hostErr = fmt.Errorf("vw.Stream() did not open port %d", port)
 	}
 	hostDest = httptest.NewServer(http.HandlerFunc(flapHandler))
+	// vw.Stream() points the logger at stdout, which is this child's result channel: whatever the
+	// level, the output is discarded
+	log.SetOutput(ioutil.Discard)
 }
 
 var httpc = &http.Client{Timeout: 3 * time.Second}
@@ -156,9 +164,29 @@ type wsClient struct {
 	got  map[string]int
 }
 
-func dialWS(topic string) (*wsClient, error) {
-	d := websocket.Dialer{HandshakeTimeout: 3 * time.Second}
-	conn, _, err := d.Dial(hostWS+"/ws/"+topic, nil)
+// request headers a front proxy / tracing layer / odd client may add: none of them may change anything
+var headerSets = []map[string]string{
+	{},
+	{"X-Forwarded-For": "203.0.113.7"},
+	{"X-Forwarded-For": "203.0.113.7, 198.51.100.2, 10.0.0.1", "X-Real-Ip": "203.0.113.7"},
+	{"X-Forwarded-For": "203.0.113.7:51234", "Forwarded": "for=203.0.113.7;proto=https;by=10.0.0.1"},
+	{"X-Forwarded-For": "[2001:db8::7]:443"},
+	{"X-Forwarded-For": "[2001:db8::7"},
+	{"X-Forwarded-For": ""},
+	{"X-Forwarded-For": strings.Repeat("203.0.113.7, ", 300)},
+	{"X-Request-Id": "same-for-everybody", "X-Correlation-Id": "same-for-everybody", "Traceparent": "00-0af7651916cd43dd8448eb211c80319c-b7ad6b7169203331-01"},
+	{"X-Request-Start": "t=-1"},
+	{"X-Request-Start": "t=99999999999999", "X-Request-Id": "same-for-everybody"},
+	{"X-Request-Start": "garbage"},
+}
+
+func dialWS(topic string, variant int) (*wsClient, error) {
+	d := websocket.Dialer{HandshakeTimeout: 3 * time.Second, EnableCompression: variant%3 == 0}
+	hdr := http.Header{}
+	for k, v := range headerSets[variant%len(headerSets)] {
+		hdr.Set(k, v)
+	}
+	conn, _, err := d.Dial(hostWS+"/ws/"+topic, hdr)
 	if err != nil {
 		return nil, err
 	}
@@ -186,16 +214,23 @@ func (c *wsClient) count(tag string) int {
 type hostRun struct {
 	k        int
 	c        *Case
-	stream   string
 	destPath string
-	ctrl     map[int]*wsClient // client number -> control subscriber
+	ws       map[int]*wsClient // client number -> websocket subscriber (control on a feed, or viewer of a stream)
 	pub      map[int]*wsClient // feed -> publisher
 	reg      map[int]bool
-	rule     []int
+	rules    map[int][]int // stream number -> feeds
+	destLive int           // the client number the destination rule currently stands for (0 = none)
 	fail     string
 }
 
-func (h *hostRun) feed(f int) string { return h.c.FeedPrefix + fmt.Sprintf("h%df%d", h.k, f) }
+func (h *hostRun) feed(f int) string   { return h.c.FeedPrefix + fmt.Sprintf("h%df%d", h.k, f) }
+func (h *hostRun) stream(s int) string { return fmt.Sprintf("stream/h%ds%d", h.k, s) }
+func (h *hostRun) topic(t Topic) string {
+	if t.Stream {
+		return h.stream(t.N)
+	}
+	return h.feed(t.N)
+}
 
 func (h *hostRun) destCount(tag string) int {
 	flap.Lock()
@@ -217,7 +252,7 @@ func (h *hostRun) publisher(f int, fresh bool) *wsClient {
 	if p := h.pub[f]; p != nil {
 		p.conn.Close()
 	}
-	p, err := dialWS(h.feed(f))
+	p, err := dialWS(h.feed(f), h.k+f)
 	if err != nil {
 		h.fail = "cannot connect a publisher to the host: " + err.Error()
 		return nil
@@ -227,28 +262,41 @@ func (h *hostRun) publisher(f int, fresh bool) *wsClient {
 	return p
 }
 
-// who the script says must get a broadcast on feed f (only used to stop repeating early)
-func (h *hostRun) expected(f int) (ctrls []int, dest bool) {
-	for k, t := range h.c.Topics {
-		if h.reg[k+1] && !t.Stream && t.N == f {
-			ctrls = append(ctrls, k+1)
+// wants: does the script say client k must get a broadcast on feed f (only used to stop repeating early)
+func (h *hostRun) wants(k int, f int) bool {
+	if !h.reg[k] {
+		return false
+	}
+	t := h.c.Topics[k-1]
+	if !t.Stream {
+		return t.N == f
+	}
+	for _, g := range h.rules[t.N] {
+		if g == f {
+			return true
 		}
 	}
-	if h.reg[1] {
-		for _, g := range h.rule {
-			if g == f {
-				dest = true
-			}
+	return false
+}
+
+func (h *hostRun) count(k int, tag string) int {
+	if h.c.Topics[k-1].Dest {
+		if k == h.destLive {
+			return h.destCount(tag)
 		}
+		return 0
 	}
-	return
+	if w := h.ws[k]; w != nil {
+		return w.count(tag)
+	}
+	return 0
 }
 
 // probe publishes a tagged message on the feed through the host's websocket front end, repeated (the
 // inner hub's hand-over is non-blocking) for at most ~2 s; returns, per client, the largest number of
-// copies of one broadcast that arrived.
+// copies of one broadcast that arrived.  What arrives at the destination is attributed to the client
+// the destination rule stands for at that moment.
 func (h *hostRun) probe(f int, idx int) []int {
-	ctrls, dest := h.expected(f)
 	attempt := 0
 	for round := 0; round < 2 && h.fail == ""; round++ {
 		// the inner hub does not deliver to a client that has the sender's name, and the front end
@@ -269,13 +317,10 @@ func (h *hostRun) probe(f int, idx int) []int {
 			all := false
 			for {
 				all = true
-				for _, k := range ctrls {
-					if h.ctrl[k].count(tg) == 0 {
+				for k := 1; k <= len(h.c.Topics); k++ {
+					if h.wants(k, f) && h.count(k, tg) == 0 {
 						all = false
 					}
-				}
-				if dest && h.destCount(tg) == 0 {
-					all = false
 				}
 				if all || time.Now().After(deadline) {
 					break
@@ -295,14 +340,7 @@ func (h *hostRun) probe(f int, idx int) []int {
 	for k := 1; k <= len(h.c.Topics); k++ {
 		copies := 0
 		for a := 0; a < attempt; a++ {
-			tg := fmt.Sprintf("h%dp%da%d", h.k, idx, a)
-			n := 0
-			if k == 1 {
-				n = h.destCount(tg)
-			} else if h.ctrl[k] != nil {
-				n = h.ctrl[k].count(tg)
-			}
-			if n > copies {
+			if n := h.count(k, fmt.Sprintf("h%dp%da%d", h.k, idx, a)); n > copies {
 				copies = n
 			}
 		}
@@ -324,8 +362,12 @@ func (h *hostRun) listing() []Rule {
 	if json.Unmarshal(b, &m) != nil {
 		return l
 	}
-	if feeds, ok := m[h.stream]; ok {
-		ru := Rule{S: 1, F: []int{}}
+	for s := 1; s <= 2; s++ {
+		feeds, ok := m[h.stream(s)]
+		if !ok {
+			continue
+		}
+		ru := Rule{S: s, F: []int{}}
 		for _, name := range feeds {
 			n := 99
 			for f := 1; f <= nFeeds+1; f++ {
@@ -340,6 +382,18 @@ func (h *hostRun) listing() []Rule {
 	return l
 }
 
+func (h *hostRun) listingIs(l []Rule) bool {
+	if len(l) != len(h.rules) {
+		return false
+	}
+	for _, ru := range l {
+		if want, ok := h.rules[ru.S]; !ok || fmt.Sprint(want) != fmt.Sprint(ru.F) {
+			return false
+		}
+	}
+	return true
+}
+
 func runHost(c *Case) {
 	hostOnce.Do(startHost)
 	c.Outs, c.Lists, c.Listed, c.Panic, c.Hang, c.Detail, c.Retries, c.Starved = nil, nil, nil, false, false, "", 0, false
@@ -349,16 +403,18 @@ func runHost(c *Case) {
 		return
 	}
 	k := int(atomic.AddInt64(&hostSerial, 1))
-	h := &hostRun{k: k, c: c, stream: fmt.Sprintf("stream/h%ds", k), destPath: fmt.Sprintf("/h%d/flap", k),
-		ctrl: map[int]*wsClient{}, pub: map[int]*wsClient{}, reg: map[int]bool{}}
+	h := &hostRun{k: k, c: c, destPath: fmt.Sprintf("/h%d/flap", k),
+		ws: map[int]*wsClient{}, pub: map[int]*wsClient{}, reg: map[int]bool{}, rules: map[int][]int{}}
 	destURL := "ws" + strings.TrimPrefix(hostDest.URL, "http") + h.destPath
+	destID := fmt.Sprintf("h%d", k)
 	// the names this run uses (for the oracle and the model case)
-	c.StreamNames = []string{"", h.stream}
+	c.StreamNames = []string{"", h.stream(1), h.stream(2)}
 	c.FeedNames = []string{"", h.feed(1), h.feed(2), h.feed(3), h.feed(4)}
 	defer func() {
-		hostDo("DELETE", "/api/destinations/"+fmt.Sprintf("h%d", k), nil)
-		hostDo("DELETE", "/api/streams/"+h.stream, nil)
-		for _, w := range h.ctrl {
+		hostDo("DELETE", "/api/destinations/"+destID, nil)
+		hostDo("DELETE", "/api/streams/"+h.stream(1), nil)
+		hostDo("DELETE", "/api/streams/"+h.stream(2), nil)
+		for _, w := range h.ws {
 			w.conn.Close()
 		}
 		for _, w := range h.pub {
@@ -373,31 +429,76 @@ func runHost(c *Case) {
 			for _, f := range o.F {
 				feeds = append(feeds, h.feed(f))
 			}
-			if _, err := hostDo("POST", "/api/streams", map[string]interface{}{"stream": h.stream, "feeds": feeds}); err != nil {
+			if _, err := hostDo("POST", "/api/streams", map[string]interface{}{"stream": h.stream(o.S), "feeds": feeds}); err != nil {
 				h.fail = "POST /api/streams: " + err.Error()
 			}
-			h.rule = o.F
+			h.rules[o.S] = o.F
+		case "Del":
+			if _, err := hostDo("DELETE", "/api/streams/"+h.stream(o.S), nil); err != nil {
+				h.fail = "DELETE /api/streams: " + err.Error()
+			}
+			delete(h.rules, o.S)
 		case "Reg":
-			if o.C == 1 {
-				rule := map[string]string{"id": fmt.Sprintf("h%d", k), "stream": h.stream, "destination": destURL}
+			t := c.Topics[o.C-1]
+			if t.Dest {
+				// the destination rule (one id, one url) is posted for this client's topic; when it
+				// stood for another client just before, this re-points it in place
+				_, opened0 := h.destOpen()
+				rule := map[string]string{"id": destID, "stream": h.topic(t), "destination": destURL}
 				if _, err := hostDo("POST", "/api/destinations", rule); err != nil {
 					h.fail = "POST /api/destinations: " + err.Error()
 				}
-				for t0 := time.Now(); time.Since(t0) < 3*time.Second; time.Sleep(time.Millisecond) {
+				for t0 := time.Now(); time.Since(t0) < 2*time.Second; time.Sleep(time.Millisecond) {
+					if open, opened := h.destOpen(); open == 1 && opened > opened0 {
+						break
+					}
+				}
+				for t0 := time.Now(); time.Since(t0) < 2*time.Second; time.Sleep(time.Millisecond) {
 					if open, _ := h.destOpen(); open == 1 {
 						break
 					}
 				}
+				h.destLive = o.C
 			} else {
-				w, err := dialWS(h.feed(c.Topics[o.C-1].N))
+				w, err := dialWS(h.topic(t), h.k+o.C)
 				if err != nil {
-					h.fail = "control subscriber: " + err.Error()
+					h.fail = "websocket subscriber: " + err.Error()
 				} else {
-					h.ctrl[o.C] = w
+					h.ws[o.C] = w
 					time.Sleep(10 * time.Millisecond)
 				}
 			}
 			h.reg[o.C] = true
+		case "Unreg":
+			t := c.Topics[o.C-1]
+			h.reg[o.C] = false
+			switch {
+			case t.Dest && i+1 < len(c.Ops) && c.Ops[i+1].K == "Reg" && c.Topics[c.Ops[i+1].C-1].Dest:
+				// the next operation re-posts the rule for another topic: nothing to do here
+			case t.Dest:
+				if _, err := hostDo("DELETE", "/api/destinations/"+destID, nil); err != nil {
+					h.fail = "DELETE /api/destinations: " + err.Error()
+				}
+				for t0 := time.Now(); time.Since(t0) < 2*time.Second; time.Sleep(time.Millisecond) {
+					if open, _ := h.destOpen(); open == 0 {
+						break
+					}
+				}
+				h.destLive = 0
+			default:
+				// a websocket subscriber leaves: close handshake or abruptly
+				if w := h.ws[o.C]; w != nil {
+					if o.C%2 == 0 {
+						if tc, ok := w.conn.UnderlyingConn().(*net.TCPConn); ok {
+							tc.SetLinger(0)
+						}
+					} else {
+						w.conn.WriteControl(websocket.CloseMessage, websocket.FormatCloseMessage(websocket.CloseNormalClosure, ""), time.Now().Add(time.Second))
+					}
+					w.conn.Close()
+				}
+				time.Sleep(30 * time.Millisecond) // the host notices on its next read
+			}
 		case "Stall":
 			// drop the destination's connection, refuse / hold the re-dials, and keep the rule's
 			// feeds busy so that the relays towards the subscriber have something to hand over
@@ -412,8 +513,16 @@ func runHost(c *Case) {
 			for _, cn := range live {
 				cn.Close()
 			}
+			busy := []int{}
+			if h.destLive != 0 {
+				if t := c.Topics[h.destLive-1]; t.Stream {
+					busy = h.rules[t.N]
+				} else {
+					busy = []int{t.N}
+				}
+			}
 			for j := 0; j < 10 && h.fail == ""; j++ {
-				for _, f := range h.rule {
+				for _, f := range busy {
 					if p := h.publisher(f, false); p != nil {
 						p.conn.WriteMessage(websocket.TextMessage, []byte(fmt.Sprintf("h%ds%df%d", k, j, f)))
 					}
@@ -444,9 +553,9 @@ func runHost(c *Case) {
 		l := []Rule{}
 		if o.K != "B" {
 			l = h.listing()
-			// POST /api/streams returns when the hub has taken the rule, not when it has stored it,
-			// and GET reads the table unsynchronised: re-read for at most 1 s until the rule shows
-			for t0 := time.Now(); o.K == "Add" && time.Since(t0) < time.Second && !(len(l) == 1 && fmt.Sprint(l[0].F) == fmt.Sprint(o.F)); {
+			// the REST front end answers when the hub has taken the rule, not when it has stored it,
+			// and GET reads the table unsynchronised: re-read for at most 1 s until it shows
+			for t0 := time.Now(); (o.K == "Add" || o.K == "Del") && time.Since(t0) < time.Second && !h.listingIs(l); {
 				time.Sleep(2 * time.Millisecond)
 				l = h.listing()
 			}
@@ -456,27 +565,34 @@ func runHost(c *Case) {
 	}
 }
 
-// genHost: rule of 2-3 distinct feeds, the stream subscriber (client 1), one control per feed, a probe
-// of every feed, the stall, a probe of every feed again.
-func genHost(r *lib.Rng) Case {
-	c := Case{Kind: "host", Topics: []Topic{{true, 1}, {false, 1}, {false, 2}, {false, 3}}}
+func hostProbes(c *Case) {
+	for f := 1; f <= nFeeds; f++ {
+		c.Ops = append(c.Ops, Op{K: "B", F: []int{f}})
+	}
+}
+
+func hostFeeds(r *lib.Rng, n int) []int {
 	feeds := []int{1, 2, 3}
 	for i := len(feeds) - 1; i > 0; i-- {
 		j := r.Intn(i + 1)
 		feeds[i], feeds[j] = feeds[j], feeds[i]
 	}
-	feeds = feeds[:r.Range(2, 3)]
+	return feeds[:n]
+}
+
+var hostPrefixes = []string{"", "", "streamcam/", "streams-", "stream2/"}
+
+// genHost: rule of 2-3 distinct feeds, the stream subscriber (client 1, an rwc destination), one control
+// per feed, a probe of every feed, the stall, a probe of every feed again.
+func genHost(r *lib.Rng) Case {
+	c := Case{Kind: "host", Topics: []Topic{{true, 1, true}, {false, 1, false}, {false, 2, false}, {false, 3, false}}}
+	feeds := hostFeeds(r, r.Range(2, 3))
 	// plain feeds whose names merely begin with the letters "stream" are still plain feeds
-	c.FeedPrefix = []string{"", "", "streamcam/", "streams-", "stream2/"}[r.Intn(5)]
+	c.FeedPrefix = hostPrefixes[r.Intn(len(hostPrefixes))]
 	if r.Bool() {
 		c.Refuse, c.DelayMs = 2, 0 // back-off 1 s + 2 s: about 3 s
 	} else {
 		c.Refuse, c.DelayMs = 1, r.Range(600, 1400) // back-off 1 s + held upgrade: 1.6 - 2.4 s
-	}
-	probes := func() {
-		for f := 1; f <= nFeeds; f++ {
-			c.Ops = append(c.Ops, Op{K: "B", F: []int{f}})
-		}
 	}
 	if r.Bool() {
 		c.Ops = append(c.Ops, Op{K: "Add", S: 1, F: feeds}, Op{K: "Reg", C: 1})
@@ -486,8 +602,73 @@ func genHost(r *lib.Rng) Case {
 	for k := 2; k <= 4; k++ {
 		c.Ops = append(c.Ops, Op{K: "Reg", C: k})
 	}
-	probes()
+	hostProbes(&c)
 	c.Ops = append(c.Ops, Op{K: "Stall"})
-	probes()
+	hostProbes(&c)
+	return c
+}
+
+// genHostRepoint: two streams with rules of their own; the destination rule is re-pointed in place
+// (same id, same url) from stream 1 to stream 2 or to a plain feed - or from a plain feed to a stream -
+// and afterwards the rule of the stream it LEFT and the rule of the stream it is on are edited.
+func genHostRepoint(r *lib.Rng) Case {
+	c := Case{Kind: "host-repoint"}
+	c.FeedPrefix = hostPrefixes[r.Intn(len(hostPrefixes))]
+	from := Topic{true, 1, true}
+	to := Topic{true, 2, true}
+	switch r.Intn(4) {
+	case 0:
+		to = Topic{false, r.Range(1, 3), true} // a stream's destination re-pointed to a plain feed
+	case 1:
+		from = Topic{false, r.Range(1, 3), true} // and the other way round
+		to = Topic{true, r.Range(1, 2), true}
+	}
+	c.Topics = []Topic{from, {false, 1, false}, {false, 2, false}, {false, 3, false}, to}
+	c.Ops = append(c.Ops, Op{K: "Add", S: 1, F: hostFeeds(r, r.Range(1, 2))}, Op{K: "Add", S: 2, F: hostFeeds(r, r.Range(1, 2))})
+	for k := 1; k <= 4; k++ {
+		c.Ops = append(c.Ops, Op{K: "Reg", C: k})
+	}
+	hostProbes(&c)
+	c.Ops = append(c.Ops, Op{K: "Unreg", C: 1}, Op{K: "Reg", C: 5}) // one POST: the rule re-pointed in place
+	hostProbes(&c)
+	for _, s := range []int{1, 2, 1} {
+		if r.Chance(1, 4) {
+			c.Ops = append(c.Ops, Op{K: "Del", S: s})
+		} else {
+			c.Ops = append(c.Ops, Op{K: "Add", S: s, F: hostFeeds(r, r.Range(1, 3))})
+		}
+		hostProbes(&c)
+	}
+	return c
+}
+
+// genHostViewers: viewers of an aggregated stream over the host's own websocket endpoint
+// (/ws/stream/..) join and leave (close handshake or reset) next to the destination on the same
+// stream, with rule edits in between; a client object registers once, so a viewer that comes back is
+// a new client.
+func genHostViewers(r *lib.Rng) Case {
+	c := Case{Kind: "host-viewers"}
+	c.FeedPrefix = hostPrefixes[r.Intn(len(hostPrefixes))]
+	c.Topics = []Topic{{true, 1, true}, {false, 1, false}, {false, 2, false}, {false, 3, false},
+		{true, 1, false}, {true, 1, false}, {true, 2, false}}
+	c.Ops = append(c.Ops, Op{K: "Add", S: 1, F: hostFeeds(r, r.Range(1, 3))}, Op{K: "Add", S: 2, F: hostFeeds(r, r.Range(1, 2))})
+	for _, k := range []int{1, 2, 3, 4, 5, 7} {
+		c.Ops = append(c.Ops, Op{K: "Reg", C: k})
+	}
+	hostProbes(&c)
+	steps := [][]Op{
+		{{K: "Unreg", C: 5}},
+		{{K: "Add", S: 1, F: hostFeeds(r, r.Range(1, 3))}},
+		{{K: "Reg", C: 6}},
+		{{K: "Unreg", C: 7}},
+		{{K: "Unreg", C: 6}},
+	}
+	if r.Bool() {
+		steps[1], steps[2] = steps[2], steps[1]
+	}
+	for _, st := range steps {
+		c.Ops = append(c.Ops, st...)
+		hostProbes(&c)
+	}
 	return c
 }
